@@ -199,35 +199,6 @@ theorem verified_only_from_credentials (flag : Bool) (cfgNs sa : Str) (ids : Opt
       cases hv
       exact ⟨l, rfl, hmem, rfl⟩
 
-theorem firstAuth_some {results : List (Option (List Str))} {ids : List Str}
-    (h : authenticate.firstAuth results = some (some ids)) : ids ≠ [] ∧ some ids ∈ results := by
-  induction results with
-  | nil => simp [authenticate.firstAuth] at h
-  | cons r rest ih =>
-    cases r with
-    | none =>
-      simp only [authenticate.firstAuth] at h
-      exact ⟨(ih h).1, List.mem_cons_of_mem _ (ih h).2⟩
-    | some l =>
-      simp only [authenticate.firstAuth] at h
-      split at h
-      · rename_i hne
-        cases h
-        exact ⟨hne, List.mem_cons_self⟩
-      · exact ⟨(ih h).1, List.mem_cons_of_mem _ (ih h).2⟩
-
-theorem firstAuth_ne_nil (results : List (Option (List Str))) : authenticate.firstAuth results ≠ some none := by
-  induction results with
-  | nil => simp [authenticate.firstAuth]
-  | cons r rest ih =>
-    cases r with
-    | none => simpa [authenticate.firstAuth] using ih
-    | some l =>
-      simp only [authenticate.firstAuth]
-      split
-      · simp
-      · exact ih
-
 /-- `authenticate` yields identities only on a TLS stream (or plaintext when `XDS_AUTH_PLAINTEXT` is set),
     only from a configured authenticator, and never an empty list: the list handed to `authorize` is either
     nil (unauthenticated) or non-empty. -/
